@@ -117,6 +117,18 @@ CLAIMED = {
         technique="Rocq proof (step simulation + invariant over all histories) + translator-regenerated state machine + in-Coq differential correspondence on a threaded rig",
         design="5/C05",
     ),
+    "C07": dict(
+        text="Theorems (Props/C07.v): for EVERY history of enable/disable, link selected/lost, S1F13, S1F14 (any COMMACK, readable or not), other messages and timer expiries "
+             "the model of GemHandler's communication handling (over the communication machine regenerated from communication_state_machine.py, run by the engine model) takes "
+             "only steps an independent E30 reference admits (C07_history_refines_e30; one-step refinement decided over the finite state space x event alphabet, COMMACK "
+             "shown to matter only as zero/non-zero, lifted by induction); COMMUNICATING only after an accepting exchange on the current link "
+             "(C07_established_only_after_exchange, ghost-flag invariant over all histories); link loss and disable leave it; refused, unreadable and unanswered attempts go "
+             "to WAIT DELAY and are retried with a new S1F13 (C07_attempt_retried); nothing reaches the application while not COMMUNICATING.",
+        note=NOTE_COMMON + " Timers are modelled as events (the rig replaces threading.Timer inside communication_state_machine by timers it fires); real-time bounds and a timer "
+             "firing concurrently with a message are not explored. The handler gate (_on_message_received) is hand-modelled.",
+        technique="Rocq proof (finite-state refinement lifted by induction, ghost-state invariant) + translator-regenerated state machine + in-Coq differential correspondence with controlled timers",
+        design="5/C07",
+    ),
     "C08": dict(
         text="Theorems (Props/C08.v) over the callback tables that harness/gen_callbacks.py regenerates from the GEM handler classes (every _on_sXXfYY of the equipment and host "
              "class hierarchies with the ways it can finish, read off its return statements): every way a shipped callback returns is the secondary (same stream, function+1), "
